@@ -53,7 +53,8 @@ MANIFEST = {
 }
 
 LEVELS = ["ERROR", "WARN", "INFO", "DEBUG", "TRACE"]
-EXCS = ["ValueError", "RuntimeError", "KeyError", "CustomError", "KindedError", "ZeroDivisionError", "PermissionError"]
+EXCS = ["ValueError", "RuntimeError", "KeyError", "CustomError", "KindedError", "ZeroDivisionError", "PermissionError",
+        "StopIteration", "BrokenPipeError", "ConnectionResetError", "OSError", "EOFError", "ArrowInvalid", "TimeoutError", "TypeError"]
 
 
 # ------------------------------------------------------------------------------------------ generators
@@ -112,6 +113,7 @@ def gen_service(rng: Any) -> dict[str, Any]:
         else:
             init: Any = "ok" if rng.random() < 0.85 else {"raise": gen_exc(rng)}
             methods.append({"name": f"{kind[0]}{i}", "kind": kind, "header": rng.random() < 0.4, "hdr": rng.randrange(100),
+                            "explicit_empty_input": kind == "producer" and rng.random() < 0.3,
                             "init_logs": gen_logs(rng, 2), "init": init, "steps": gen_steps(rng, kind == "exchange")})
     return {"methods": methods}
 
@@ -374,7 +376,9 @@ def _corpus() -> list[tuple[dict[str, Any], list[list[Any]]]]:
         for hdr in (False, True):
             ms: list[dict[str, Any]] = []
             for pos in (0, 1):
-                for ai, act in enumerate([{"emit": {"id": 3}}, E("ValueError", "first"), "nothing", "finish", {"emit_finish": {"id": 4}}]):
+                special = [E(c, "sp") for c in ("StopIteration", "BrokenPipeError", "ConnectionResetError", "OSError", "EOFError", "ArrowInvalid",
+                                                "TimeoutError", "TypeError", "KeyError")] if pos == 0 or not hdr else []
+                for ai, act in enumerate([{"emit": {"id": 3}}, E("ValueError", "first"), "nothing", "finish", {"emit_finish": {"id": 4}}] + special):
                     if kind == "exchange" and isinstance(act, dict) and "emit_finish" in act:
                         continue
                     for lg in (False, True):
@@ -384,6 +388,7 @@ def _corpus() -> list[tuple[dict[str, Any], list[list[Any]]]]:
                         if emits and "emit" in act:
                             steps.append({"logs": [], "act": "finish" if kind == "producer" else {"emit": {"id": 8}}, "post": []})
                         ms.append({"name": f"{kind[0]}{int(hdr)}{pos}{ai}{int(lg)}", "kind": kind, "header": hdr, "hdr": 11,
+                                   "explicit_empty_input": kind == "producer" and lg,
                                    "init_logs": [L("il")] if lg else [], "init": "ok", "steps": steps})
             sc: list[list[Any]] = []
             for m in ms:
